@@ -15,7 +15,11 @@ import (
 // C05: real core trees (observer and IO leaves with threshold / AtomicLevel / function
 // enablers under NewTee, RegisterHooks, NewIncreaseLevelCore, samplers, NewLazyWith, With),
 // driven through every family of front end at all 256 level values, interleaved with
-// AtomicLevel changes.  Wire format: see coq/theories/C05/Model.v.
+// AtomicLevel changes.  Samplers come in two kinds: tag 5 never drops (first = 2^30), tag 8 is
+// NewSamplerWithOptions(core, 1h, first, thereafter) with small first/thereafter, so that
+// histories which repeat a level+message reach its drop decision; every sampler reports its
+// decisions through a SamplerHook (sampler number = pre-order position in the tree).
+// Wire format: see coq/theories/C05/Model.v.
 
 // ---------- case syntax ----------
 type c05en struct {
@@ -41,12 +45,15 @@ func (e *c05en) sx() SX {
 	return L(I(2), B(b))
 }
 
-// tags: 0 leaf, 1 nop, 2 tee, 3 hooked, 4 increase-level, 5 sampler, 6 lazy-with, 7 With
+// tags: 0 leaf, 1 nop, 2 tee, 3 hooked, 4 increase-level, 5 sampler (never drops), 6 lazy-with,
+// 7 With, 8 sampler with (first, thereafter)
 type c05node struct {
-	tag  int
-	id   int // leaf id or hook id
-	en   *c05en
-	kids []*c05node
+	tag   int
+	id    int // leaf id or hook id
+	en    *c05en
+	kids  []*c05node
+	first int // tag 8
+	there int // tag 8
 }
 
 func (n *c05node) sx() SX {
@@ -65,6 +72,8 @@ func (n *c05node) sx() SX {
 		return L(I(3), n.kids[0].sx(), I(n.id))
 	case 4:
 		return L(I(4), n.kids[0].sx(), n.en.sx())
+	case 8:
+		return L(I(8), n.kids[0].sx(), I(n.first), I(n.there))
 	}
 	return L(I(n.tag), n.kids[0].sx())
 }
@@ -119,9 +128,16 @@ type c05case struct {
 // ---------- running a case on the real zap ----------
 type c05ev struct{ kind, id int } // 0 IO leaf write, 1 hook, 2 IO leaf sync (C06 only)
 
+type c05samp struct {
+	k       int
+	dropped bool
+}
+
 type c05env struct {
 	cells   []zap.AtomicLevel
 	events  []c05ev
+	nsamp   int       // samplers built so far (pre-order numbering)
+	samp    []c05samp // decisions reported by the samplers' hooks during the current call
 	obsLogs map[int]*observer.ObservedLogs
 	isObs   map[int]bool
 	evals   int
@@ -222,8 +238,17 @@ func (env *c05env) build(n *c05node) zapcore.Core {
 			return inner
 		}
 		return c
-	case 5:
-		return zapcore.NewSamplerWithOptions(env.build(n.kids[0]), time.Second, 1<<30, 0)
+	case 5, 8:
+		k := env.nsamp // numbered before the wrapped core is built: pre-order
+		env.nsamp++
+		hook := zapcore.SamplerHook(func(_ zapcore.Entry, d zapcore.SamplingDecision) {
+			env.samp = append(env.samp, c05samp{k, d&zapcore.LogDropped != 0})
+		})
+		if n.tag == 5 {
+			return zapcore.NewSamplerWithOptions(env.build(n.kids[0]), time.Second, 1<<30, 0, hook)
+		}
+		// an hour-long tick: every call of a case falls into one sampling window
+		return zapcore.NewSamplerWithOptions(env.build(n.kids[0]), time.Hour, n.first, n.there, hook)
 	case 6:
 		return zapcore.NewLazyWith(env.build(n.kids[0]), []zapcore.Field{zap.Int("lazy", 1)})
 	}
@@ -352,6 +377,7 @@ func c05run(cs *c05case) (obs SX, delivered, silent int) {
 			outs = append(outs, L())
 		case 1:
 			env.events = env.events[:0]
+			env.samp = env.samp[:0]
 			env.evals = 0
 			c05call(env, lg, o.fam, zapcore.Level(o.v), (i+o.fam)%2 == 0)
 			evs := make([]SX, len(env.events))
@@ -373,7 +399,11 @@ func c05run(cs *c05case) (obs SX, delivered, silent int) {
 			} else {
 				silent++
 			}
-			outs = append(outs, L(L(evs...), L(cnt...), I(env.evals)))
+			reps := make([]SX, len(env.samp))
+			for k, r := range env.samp {
+				reps[k] = L(I(r.k), Bool(r.dropped))
+			}
+			outs = append(outs, L(L(evs...), L(cnt...), I(env.evals), L(reps...)))
 		case 2:
 			outs = append(outs, Bool(lg.Core().Enabled(zapcore.Level(o.v))))
 		case 3:
@@ -421,12 +451,40 @@ func c05input(cs *c05case) SX {
 
 // ---------- generators ----------
 type c05gen struct {
-	r      *RNG
-	ncells int
-	cells  []int8
-	leaf   int
-	hook   int
-	obs    []int
+	r        *RNG
+	ncells   int
+	cells    []int8
+	leaf     int
+	hook     int
+	obs      []int
+	dropping bool // produce samplers that really drop (tag 8); C06's model knows only tag 5
+}
+
+// the messages the front-end families log (Model.v msg_class): the sampler counts per level and
+// message bucket, so the three must fall into distinct buckets
+func init() {
+	fnv := func(s string) uint32 {
+		h := uint32(2166136261)
+		for i := 0; i < len(s); i++ {
+			h ^= uint32(s[i])
+			h *= 16777619
+		}
+		return h % 4096
+	}
+	if a, b, c := fnv("m"), fnv("payload"), fnv("line"); a == b || a == c || b == c {
+		panic("c05: the harness messages share a sampler bucket")
+	}
+}
+
+func (g *c05gen) sampler(inner *c05node) *c05node {
+	if !g.dropping || g.r.Chance(20) {
+		return &c05node{tag: 5, kids: []*c05node{inner}}
+	}
+	n := &c05node{tag: 8, kids: []*c05node{inner}, first: g.r.Range(0, 3)}
+	if g.r.Chance(60) {
+		n.there = g.r.Range(1, 4)
+	}
+	return n
 }
 
 var c05oddLevels = []int8{-128, -100, -3, -2, 6, 7, 8, 50, 127}
@@ -523,7 +581,11 @@ func (g *c05gen) subtree(depth int, root bool) *c05node {
 		}
 		n := &c05node{tag: 2}
 		for i := 0; i < k; i++ {
-			n.kids = append(n.kids, g.subtree(depth-1, false))
+			kid := g.subtree(depth-1, false)
+			if g.dropping && g.r.Chance(25) {
+				kid = g.sampler(kid) // a sampled branch next to its siblings
+			}
+			n.kids = append(n.kids, kid)
 		}
 		return n
 	case x < 72:
@@ -544,7 +606,7 @@ func (g *c05gen) subtree(depth int, root bool) *c05node {
 		}
 		return &c05node{tag: 4, en: en, kids: []*c05node{inner}}
 	case x < 91:
-		return &c05node{tag: 5, kids: []*c05node{g.subtree(depth-1, false)}}
+		return g.sampler(g.subtree(depth-1, false))
 	case x < 96:
 		return &c05node{tag: 6, kids: []*c05node{g.subtree(depth-1, false)}}
 	}
@@ -590,6 +652,80 @@ func wrapN(tag int, k *c05node) *c05node {
 func hookN(k *c05node, h int) *c05node { return &c05node{tag: 3, id: h, kids: []*c05node{k}} }
 func filtN(k *c05node, en *c05en) *c05node {
 	return &c05node{tag: 4, en: en, kids: []*c05node{k}}
+}
+func sampN(k *c05node, first, thereafter int) *c05node {
+	return &c05node{tag: 8, kids: []*c05node{k}, first: first, there: thereafter}
+}
+
+// the same level+message again and again (the three messages of the harness, two families sharing
+// "m"), at every valid level and two out-of-range ones, with With and the level queries in between:
+// the history a sampler needs to reach its drop decision
+func c05repeatOps(rounds int) []c05op {
+	var ops []c05op
+	for r := 0; r < rounds; r++ {
+		for _, l := range []int8{-2, -1, 0, 1, 2, 3, 4, 5, 6} {
+			for _, fam := range []int{0, 2, 6, 4} {
+				ops = append(ops, c05op{kind: 1, fam: fam, v: l})
+			}
+			ops = append(ops, c05op{kind: 2, v: l})
+		}
+		ops = append(ops, c05op{kind: 3})
+		if r == rounds/2 {
+			ops = append(ops, c05op{kind: 5})
+		}
+	}
+	return ops
+}
+
+// trees in which a sampler that drops sits next to, above or below the other kinds of core
+func c05directedSamplers(c *Ctx) {
+	never := fnOf(func(int) bool { return false })
+	odd := fnOf(func(l int) bool { return l%2 != 0 })
+	trees := []struct {
+		t     *c05node
+		cells []int8
+		obs   []int
+	}{
+		// a sampled branch AFTER an accepting (hooked) branch of a tee, and before one
+		{teeN(hookN(leafN(0, thr(-1)), 7), sampN(leafN(1, thr(-1)), 2, 0)), nil, []int{0, 1}},
+		{teeN(leafN(0, thr(0)), sampN(leafN(1, thr(0)), 1, 0)), nil, nil},
+		{teeN(sampN(leafN(0, thr(-1)), 1, 2), leafN(1, thr(1)), sampN(hookN(leafN(2, thr(0)), 4), 0, 3), hookN(leafN(3, odd), 5)), nil, []int{1}},
+		// samplers in samplers, a sampler over a tee, a tee of samplers only
+		{sampN(teeN(leafN(0, thr(-1)), sampN(leafN(1, thr(0)), 1, 0), leafN(2, thr(1))), 3, 2), nil, []int{2}},
+		{teeN(sampN(leafN(0, thr(-1)), 0, 0), sampN(leafN(1, thr(-1)), 0, 1), sampN(leafN(2, thr(-1)), 1, 1), sampN(sampN(leafN(3, thr(-1)), 2, 2), 1, 3)), nil, nil},
+		// below and above hooked, increase-level, lazy and With wrappers, after an accepting branch
+		{teeN(leafN(0, thr(-1)), hookN(sampN(leafN(1, thr(-1)), 1, 0), 2)), nil, nil},
+		{teeN(leafN(0, thr(-1)), filtN(sampN(leafN(1, thr(-1)), 1, 0), thr(1)), sampN(filtN(leafN(2, thr(-1)), thr(2)), 1, 2)), nil, []int{0}},
+		{teeN(leafN(0, thr(-1)), wrapN(6, sampN(leafN(1, thr(0)), 1, 0)), wrapN(7, sampN(wrapN(6, leafN(2, thr(0))), 2, 1))), nil, nil},
+		{wrapN(7, teeN(hookN(leafN(0, thr(0)), 1), sampN(hookN(leafN(1, thr(0)), 3), 1, 0))), nil, []int{1}},
+		// a sampler that drops next to a sampler whose core is disabled, a no-op core and an empty tee
+		{teeN(leafN(0, thr(-1)), sampN(leafN(1, never), 0, 0), sampN(nopN(), 0, 0), sampN(teeN(), 0, 0), sampN(leafN(2, thr(-1)), 1, 0)), nil, nil},
+		// shared AtomicLevels around the samplers
+		{teeN(leafN(0, atom(0)), sampN(leafN(1, atom(1)), 1, 1), sampN(leafN(2, atom(0)), 1, 0)), []int8{-1, 0}, []int{2}},
+		// alone and as the first branch (the entry handed in is nil)
+		{sampN(leafN(0, thr(-1)), 2, 3), nil, nil},
+		{teeN(sampN(leafN(0, thr(-1)), 1, 0), leafN(1, thr(-1))), nil, nil},
+	}
+	anyFams := []int{0, 1, 2, 3, 4, 5, 6}
+	for _, t := range trees {
+		c05emit(c, &c05case{tree: t.t, cells: t.cells, obs: t.obs, ops: c05repeatOps(7)}, "directed-sampler")
+		c05emit(c, &c05case{tree: t.t, cells: t.cells, obs: t.obs, ops: append(c05allFamOps(), c05allFamOps()...)}, "directed-sampler-fams")
+		c05emit(c, &c05case{tree: t.t, cells: t.cells, obs: t.obs, ops: append(c05sweepOps(anyFams), c05sweepOps([]int{0})...)}, "directed-sampler")
+		if len(t.cells) > 0 {
+			var ops []c05op
+			for a := range t.cells {
+				for _, v := range []int8{-1, 1, 0, 3, -128, 6, 0} {
+					ops = append(ops, c05op{kind: 0, a: a, v: v}, c05op{kind: 3})
+					for i := 0; i < 3; i++ {
+						for l := int8(-1); l <= 2; l++ {
+							ops = append(ops, c05op{kind: 1, fam: i % 2 * 4, v: l})
+						}
+					}
+				}
+			}
+			c05emit(c, &c05case{tree: t.t, cells: t.cells, obs: t.obs, ops: ops}, "directed-sampler-hist")
+		}
+	}
 }
 
 // every level through the arbitrary-level families, Enabled at every level, Level, V
@@ -680,6 +816,7 @@ func c05directed(c *Ctx) {
 
 func c05(c *Ctx) {
 	c05directed(c)
+	c05directedSamplers(c)
 	// Fork: NewRNG's streams for consecutive seeds are shifted copies of each other
 	r := NewRNG(c.Seed).Fork()
 	nSweep, nHist := 300, 4500
@@ -689,6 +826,7 @@ func c05(c *Ctx) {
 	anyFams := []int{0, 1, 2, 3, 4, 5, 6}
 	for k := 0; k < nSweep; k++ {
 		g := c05newGen(r.Fork())
+		g.dropping = true
 		t := g.tree(g.r.Range(1, 5))
 		fams := anyFams
 		if g.r.Chance(50) {
@@ -698,6 +836,7 @@ func c05(c *Ctx) {
 	}
 	for k := 0; k < nHist; k++ {
 		g := c05newGen(r.Fork())
+		g.dropping = true
 		if g.ncells == 0 && g.r.Chance(70) {
 			g.ncells = g.r.Range(1, 3)
 			for i := 0; i < g.ncells; i++ {
@@ -706,14 +845,20 @@ func c05(c *Ctx) {
 		}
 		t := g.tree(g.r.Range(1, 5))
 		nops := g.r.Range(5, 60)
-		var ops []c05op
+		var ops, calls []c05op
 		for i := 0; i < nops; i++ {
 			x := g.r.Intn(100)
+			if len(calls) > 0 && g.r.Chance(20) {
+				// the same call again: what a sampler counts
+				ops = append(ops, calls[g.r.Intn(len(calls))])
+				continue
+			}
 			switch {
 			case x < 18 && g.ncells > 0:
 				ops = append(ops, c05op{kind: 0, a: g.r.Intn(g.ncells), v: g.level()})
 			case x < 70:
 				ops = append(ops, g.callOp())
+				calls = append(calls, ops[len(ops)-1])
 			case x < 82:
 				ops = append(ops, c05op{kind: 2, v: g.level()})
 			case x < 90:
